@@ -34,6 +34,9 @@ structure LNode where
   kids : List (String × Nat) := []
   /-- leaf entries: key ↦ (identity of the bound leaf object, version of its content) -/
   leaves : List (String × Nat × Nat) := []
+  /-- metadata attributes of the object (`_td_dim_names` / `_td_dim_name`, `_batch_size`, `_device`, storage kind): field ↦ value.
+  The lock machine never reads or writes them (C05); C06 makes them part of what a memoised read may depend on. -/
+  attrs : List (Nat × Nat) := []
   deriving Repr, DecidableEq, Inhabited
 
 structure Heap where
@@ -377,5 +380,21 @@ def step (s : State) (e : Ev) : State × Out :=
   | none => stepLive s e
 
 def run (s : State) (evs : List Ev) : State := evs.foldl (fun acc e => (step acc e).1) s
+
+/-! ### views: tensordicts without a lock state of their own -/
+
+/-- mirrors _td.py `_SubTensorDict.is_locked` / _lazy.py `_CustomOpTensorDict.is_locked`: the source's -/
+def viewIsLocked (h : Heap) (src : Nat) : Bool := isLocked h src
+
+/-- mirrors _td.py `_SubTensorDict.lock_`: "we can't lock sub-tensordicts": raises unless the source is locked already,
+in which case it is a no-op.  Never changes anything. -/
+def subLockEv (h : Heap) (src : Nat) : Heap × Out := if isLocked h src then (h, .okNoop) else (h, .errOther)
+/-- mirrors _td.py `_SubTensorDict.unlock_`: raises when the source is locked, no-op otherwise.  Never changes anything. -/
+def subUnlockEv (h : Heap) (src : Nat) : Heap × Out := if isLocked h src then (h, .errOther) else (h, .okNoop)
+
+/-- mirrors _lazy.py `_CustomOpTensorDict.lock_` / `unlock_` (the legacy lazy views: permute, view, unsqueeze, …):
+forwarded to the source -/
+def customLockEv (h : Heap) (src : Nat) : Heap × Out := lockEv h src
+def customUnlockEv (h : Heap) (src : Nat) : Heap × Out := unlockEv h src
 
 end TdVerif.C05
